@@ -110,8 +110,8 @@ WithVote(x, m) == IF m.t \in {"prevote", "precommit"} THEN AddVote(x, m.t, m.r, 
 
 EnvPair(t, r, x, y) ==
   /\ s.height = 1 /\ ~Dead(s)
-  /\ (IF t = "prevote" THEN s.pv[r] ELSE s.pc[r])[E1] = None
-  /\ (IF t = "prevote" THEN s.pv[r] ELSE s.pc[r])[E2] = None
+  /\ (IF t = "prevote" THEN s.pv[r] ELSE s.pc[r]).votes[E1] = None
+  /\ (IF t = "prevote" THEN s.pv[r] ELSE s.pc[r]).votes[E2] = None
   /\ LET m1 == [t |-> t, src |-> E1, r |-> r, v |-> x, pol |-> -2]
          m2 == [t |-> t, src |-> E2, r |-> r, v |-> y, pol |-> -2]
          a  == HandleMsg(Me, s, m1, E1)
